@@ -251,46 +251,52 @@ Qed.
 Lemma strip_bigint_n body : strip_bigint (body ++ ["n"%char]) = body.
 Proof. unfold strip_bigint. rewrite ends_with_app_self. apply removelast_last. Qed.
 
-(* the digits a hexadecimal literal may use when the e/E digit sends it down the float() path *)
-Definition hex_digits_no_e : list nat := [0;1;2;3;4;5;6;7;8;9;10;11;12;13;15].
+(* the tables the repaired source carries *)
+Lemma ts_tables_fact : ts_int_prefixes = ["0x"; "0o"; "0b"] /\ ts_bigint_suffixes = ["n"].
+Proof. split; reflexivity. Qed.
 
-Definition ts_int_guard (hex_e_float : bool) (r : radix) (gs : list (list nat)) : bool :=
-  match r with RHex => negb hex_e_float || groups_in hex_digits_no_e gs | _ => true end.
-
-Definition ts_sfx_ok (bigint_dropped : bool) (sfx : string) : bool :=
-  String.eqb sfx "" || (negb bigint_dropped && String.eqb sfx "n").
-
-(* extract_total (TypeScript, integers): every integer literal of the documented grammar is read as its value;
-   with the flags on (the code) this holds outside the two defect classes *)
-Lemma ts_extract_int hq bq r up gs sfx :
-  groups_ok (base_of r) gs = true -> dec_ok r gs = true ->
-  ts_int_guard hq r gs = true -> ts_sfx_ok bq sfx = true ->
-  ts_extract hq bq (lit_chars (LInt r gs up sfx)) = Some (digits_val (Z.of_nat (base_of r)) 0 (List.concat gs), 0%Z).
+Lemma strip_suffix_code_none al text :
+  over al text = true -> existsb (Ascii.eqb "n"%char) al = false -> strip_suffix_code text = text.
 Proof.
-  intros Hg Hz Hq Hs. unfold lit_chars. cbn [lit_body lit_suffix].
+  intros Ho Ha. unfold strip_suffix_code. rewrite (proj2 ts_tables_fact). change (chars "n") with ["n"%char].
+  destruct (ends_with ["n"%char] text) eqn:E; [|reflexivity].
+  apply ends_with_single_in in E. rewrite (over_not_in al text _ Ho Ha) in E. discriminate.
+Qed.
+
+Lemma strip_suffix_code_n body : strip_suffix_code (body ++ ["n"%char]) = body.
+Proof.
+  unfold strip_suffix_code. rewrite (proj2 ts_tables_fact). change (chars "n") with ["n"%char].
+  rewrite ends_with_app_self. apply firstn_app_exact.
+Qed.
+
+Definition ts_sfx_ok (sfx : string) : bool := String.eqb sfx "" || String.eqb sfx "n".
+
+(* extract_total (TypeScript, integers): every integer literal of the documented grammar is read as its value, whether the
+   prefix test / suffix stripping are the property's (flags false) or those found in the source (flags true) *)
+Lemma ts_extract_int pq bq r up gs sfx :
+  groups_ok (base_of r) gs = true -> dec_ok r gs = true -> ts_sfx_ok sfx = true ->
+  ts_extract pq bq (lit_chars (LInt r gs up sfx)) = Some (digits_val (Z.of_nat (base_of r)) 0 (List.concat gs), 0%Z).
+Proof.
+  intros Hg Hz Hs. unfold lit_chars. cbn [lit_body lit_suffix].
   set (body := prefix_of r ++ render_groups up gs).
   assert (Hover : over (int_alpha r up (seq 0 (base_of r))) body = true) by (apply int_body_over, groups_ok_in, Hg).
   assert (Hn : existsb (Ascii.eqb "n"%char) (int_alpha r up (seq 0 (base_of r))) = false) by (destruct r, up; reflexivity).
-  (* after the optional BigInt suffix has been handled the text is the body *)
-  assert (CORE : (if ts_int_path body || (negb hq && is_hex_prefixed body)
+  assert (CORE : (if ts_int_path body || (if pq then code_int_prefixed body else is_hex_prefixed body)
                   then option_map (fun z => (z, 0%Z)) (py_int0 body) else py_float body)
                  = Some (digits_val (Z.of_nat (base_of r)) 0 (List.concat gs), 0%Z)).
-  { assert (P : ts_int_path body || (negb hq && is_hex_prefixed body) = true).
+  { assert (P : ts_int_path body || (if pq then code_int_prefixed body else is_hex_prefixed body) = true).
     { destruct r.
       - rewrite (ts_int_path_over _ body Hover) by (destruct up; reflexivity). reflexivity.
-      - cbn [ts_int_guard] in Hq. destruct hq.
-        + cbn [negb orb] in Hq.
-          rewrite (ts_int_path_over (int_alpha RHex up hex_digits_no_e) body); [reflexivity | apply int_body_over; exact Hq | destruct up; reflexivity].
-        + cbn [negb andb]. replace (is_hex_prefixed body) with true by reflexivity. apply orb_true_r.
+      - replace (if pq then code_int_prefixed body else is_hex_prefixed body) with true by (destruct pq; reflexivity).
+        apply orb_true_r.
       - rewrite (ts_int_path_over _ body Hover) by (destruct up; reflexivity). reflexivity.
       - rewrite (ts_int_path_over _ body Hover) by (destruct up; reflexivity). reflexivity. }
     rewrite P. unfold body. rewrite (py_int0_body r up gs Hg Hz). reflexivity. }
   unfold ts_sfx_ok in Hs. apply orb_true_iff in Hs. destruct Hs as [Hs|Hs].
   - apply String.eqb_eq in Hs. subst sfx. change (chars "") with (@nil ascii). rewrite app_nil_r.
-    unfold ts_extract. destruct bq; [exact CORE|]. rewrite (strip_bigint_none _ body Hover Hn). exact CORE.
-  - apply andb_prop in Hs. destruct Hs as [Hb Hs]. apply negb_true_iff in Hb. subst bq.
-    apply String.eqb_eq in Hs. subst sfx. change (chars "n") with ["n"%char].
-    unfold ts_extract. rewrite strip_bigint_n. exact CORE.
+    unfold ts_extract. destruct bq; [rewrite (strip_suffix_code_none _ body Hover Hn) | rewrite (strip_bigint_none _ body Hover Hn)]; exact CORE.
+  - apply String.eqb_eq in Hs. subst sfx. change (chars "n") with ["n"%char].
+    unfold ts_extract. destruct bq; [rewrite strip_suffix_code_n | rewrite strip_bigint_n]; exact CORE.
 Qed.
 
 Lemma is_hex_prefixed_over al s :
@@ -308,17 +314,33 @@ Qed.
 Definition float_shape (fp : list nat) (ex : option (bool * list nat)) : bool :=
   match fp, ex with [], None => false | _, _ => true end.
 
+Lemma code_int_prefixed_over al s :
+  over al s = true -> forallb (fun c => negb (existsb (Ascii.eqb (lower_char c)) (chars "xob"))) al = true ->
+  code_int_prefixed s = false.
+Proof.
+  intros Ho Ha. unfold code_int_prefixed. rewrite (proj1 ts_tables_fact).
+  destruct s as [|z [|x body]]; [reflexivity | cbn; rewrite !andb_false_r; reflexivity |].
+  assert (Hx : existsb (Ascii.eqb x) al = true) by (apply (over_In al (z :: x :: body)); [exact Ho | right; left; reflexivity]).
+  apply existsb_exists in Hx. destruct Hx as [x' [Hin E]]. apply Ascii.eqb_eq in E. subst x'.
+  rewrite forallb_forall in Ha. specialize (Ha x Hin). apply negb_true_iff in Ha.
+  cbn [chars list_ascii_of_string existsb] in Ha. apply orb_false_iff in Ha. destruct Ha as [A1 Ha].
+  apply orb_false_iff in Ha. destruct Ha as [A2 Ha]. apply orb_false_iff in Ha. destruct Ha as [A3 _].
+  cbn [existsb map prefix_l chars list_ascii_of_string].
+  rewrite (Ascii.eqb_sym "x"%char), (Ascii.eqb_sym "o"%char), (Ascii.eqb_sym "b"%char), A1, A2, A3.
+  rewrite !andb_false_r. reflexivity.
+Qed.
+
 (* extract_total (TypeScript, floats) *)
-Lemma ts_extract_float hq bq ip fp ex :
+Lemma ts_extract_float pq bq ip fp ex :
   fdigits_ok ip = true -> nonempty ip = true -> fdigits_ok fp = true -> ex_ok ex = true -> float_shape fp ex = true ->
-  ts_extract hq bq (lit_chars (LFloat ip fp ex ""))
+  ts_extract pq bq (lit_chars (LFloat ip fp ex ""))
   = Some (digits_val 10 0 (ip ++ fp), (- Z.of_nat (List.length fp) + exp_val ex)%Z).
 Proof.
   intros Hi Hn Hf He Hs. unfold lit_chars. cbn [lit_body lit_suffix]. change (chars "") with (@nil ascii). rewrite app_nil_r.
   assert (Hover := float_body_over ip fp ex Hi Hf He).
   unfold ts_extract.
-  assert (T : (if bq then float_body ip fp ex else strip_bigint (float_body ip fp ex)) = float_body ip fp ex).
-  { destruct bq; [reflexivity|]. apply (strip_bigint_none float_alpha); [exact Hover | reflexivity]. }
+  assert (T : (if bq then strip_suffix_code (float_body ip fp ex) else strip_bigint (float_body ip fp ex)) = float_body ip fp ex).
+  { destruct bq; [apply (strip_suffix_code_none float_alpha) | apply (strip_bigint_none float_alpha)]; try exact Hover; reflexivity. }
   rewrite T.
   assert (P : ts_int_path (float_body ip fp ex) = false).
   { rewrite ts_int_path_eq. unfold float_body. destruct fp as [|f fp'].
@@ -327,7 +349,10 @@ Proof.
       change (Ascii.eqb "e"%char (lower_char "e"%char)) with true. cbn [orb]. apply orb_true_r.
     - apply andb_false_iff. left. apply negb_false_iff. rewrite !existsb_app. cbn [existsb].
       change (Ascii.eqb c_dot c_dot) with true. cbn [orb]. apply orb_true_r. }
-  rewrite P. rewrite (is_hex_prefixed_over float_alpha _ Hover) by reflexivity. rewrite andb_false_r. cbn [orb].
+  rewrite P. cbn [orb].
+  replace (if pq then code_int_prefixed (float_body ip fp ex) else is_hex_prefixed (float_body ip fp ex)) with false.
+  2:{ destruct pq; symmetry; [apply (code_int_prefixed_over float_alpha _ Hover); reflexivity
+                             | apply (is_hex_prefixed_over float_alpha _ Hover); reflexivity]. }
   apply py_float_body; assumption.
 Qed.
 
@@ -490,23 +515,47 @@ Proof.
   destruct Hs as [->|Hin]; [reflexivity|]. rewrite forallb_forall in H. apply H. exact Hin.
 Qed.
 
-(* lower-case hexadecimal digits without f: such a literal cannot end in f32 / f64 *)
-Definition hex_digits_no_f : list nat := [0;1;2;3;4;5;6;7;8;9;10;11;12;13;14].
+(* the suffix selection found in the repaired source is the property's *)
+Lemma rs_tables_fact : rs_prefixed_markers = ["0x"; "0o"; "0b"] /\ rs_prefixed_skip = ["f"].
+Proof. split; reflexivity. Qed.
 
-Definition rs_int_guard (clash : bool) (r : radix) (up : bool) (gs : list (list nat)) : bool :=
-  match r with RHex => negb clash || up || groups_in hex_digits_no_f gs | _ => true end.
+Lemma lower_is_0 c : Ascii.eqb (lower_char c) "0"%char = Ascii.eqb c "0"%char.
+Proof. destruct c as [[] [] [] [] [] [] [] []]; reflexivity. Qed.
+Lemma lower_is_x c : Ascii.eqb (lower_char c) "x"%char = is_one_of c "x"%char "X"%char.
+Proof. destruct c as [[] [] [] [] [] [] [] []]; reflexivity. Qed.
+Lemma lower_is_o c : Ascii.eqb (lower_char c) "o"%char = is_one_of c "o"%char "O"%char.
+Proof. destruct c as [[] [] [] [] [] [] [] []]; reflexivity. Qed.
+Lemma lower_is_b c : Ascii.eqb (lower_char c) "b"%char = is_one_of c "b"%char "B"%char.
+Proof. destruct c as [[] [] [] [] [] [] [] []]; reflexivity. Qed.
+
+Lemma code_prefixed_eq text : code_prefixed text = is_prefixed text.
+Proof.
+  unfold code_prefixed. rewrite (proj1 rs_tables_fact). destruct text as [|z [|x r]]; [reflexivity | cbn; rewrite !andb_false_r; reflexivity |].
+  cbn [firstn map existsb list_eqb chars list_ascii_of_string is_prefixed].
+  rewrite lower_is_0, lower_is_x, lower_is_o, lower_is_b. unfold c_0.
+  destruct (Ascii.eqb z "0"%char), (is_one_of x "x"%char "X"%char), (is_one_of x "o"%char "O"%char), (is_one_of x "b"%char "B"%char); reflexivity.
+Qed.
+
+Lemma rs_suffix_table_code text : rs_suffix_table true text = rs_suffix_table false text.
+Proof.
+  unfold rs_suffix_table. rewrite code_prefixed_eq. destruct (is_prefixed text); [|reflexivity].
+  unfold code_skipped. rewrite (proj2 rs_tables_fact). reflexivity.
+Qed.
+
+Lemma rs_extract_code tbl ty text : rs_extract tbl ty text = rs_extract false ty text.
+Proof. destruct tbl; [|reflexivity]. unfold rs_extract. rewrite rs_suffix_table_code. reflexivity. Qed.
 
 Definition rs_int_sfx_table (r : radix) : list string :=
   match r with RDec => int_suffixes ++ float_suffixes | _ => int_suffixes end.
 
-(* extract_total (Rust, integers) *)
-Lemma rs_extract_int clash r up gs sfx us s :
-  groups_ok (base_of r) gs = true -> dec_ok r gs = true -> rs_int_guard clash r up gs = true ->
+(* extract_total (Rust, integers), for the property's suffix selection; rs_extract_code carries it to the source's *)
+Lemma rs_extract_int r up gs sfx us s :
+  groups_ok (base_of r) gs = true -> dec_ok r gs = true ->
   sfx_split sfx (rs_int_sfx_table r) = Some (us, s) ->
-  rs_extract clash "integer_literal" (lit_chars (LInt r gs up sfx))
+  rs_extract false "integer_literal" (lit_chars (LInt r gs up sfx))
   = Some (digits_val (Z.of_nat (base_of r)) 0 (List.concat gs), 0%Z).
 Proof.
-  intros Hg Hz Hq Hs. unfold lit_chars. cbn [lit_body lit_suffix].
+  intros Hg Hz Hs. unfold lit_chars. cbn [lit_body lit_suffix].
   destruct (sfx_split_chars _ _ _ _ Hs) as [Ec Hin]. rewrite Ec.
   set (body := prefix_of r ++ render_groups up gs).
   set (tail := (if us then [c_us] else []) ++ chars s).
@@ -525,46 +574,37 @@ Proof.
   unfold rs_extract. rewrite rs_float_type_fact. change (String.eqb "integer_literal" "float_literal") with false. cbv iota.
   assert (HinAll : s = "" \/ In s (int_suffixes ++ float_suffixes)).
   { destruct Hin as [->|Hin]; [left; reflexivity | right]. destruct r; cbn [rs_int_sfx_table] in Hin; [exact Hin | | | ]; apply in_or_app; left; exact Hin. }
-  assert (STRIP : strip_suffix (rs_suffix_table clash (body ++ tail)) (body ++ tail) = body ++ (if us then [c_us] else [])).
+  assert (STRIP : strip_suffix (rs_suffix_table false (body ++ tail)) (body ++ tail) = body ++ (if us then [c_us] else [])).
   { unfold tail. unfold rs_suffix_table. rewrite rs_suffixes_fact.
     destruct r.
-    - (* decimal: not base-prefixed, the whole table applies *)
-      assert (NP : is_prefixed (body ++ (if us then [c_us] else []) ++ chars s) = false).
+    - assert (NP : is_prefixed (body ++ (if us then [c_us] else []) ++ chars s) = false).
       { apply (is_prefixed_over (int_alpha RDec up (seq 0 10) ++ suffix_alpha)).
         - rewrite over_app. apply andb_true_iff. split.
           + apply (over_mono (int_alpha RDec up (seq 0 10))); [apply int_body_over, groups_ok_in, Hg | destruct up; reflexivity].
           + apply (over_mono suffix_alpha); [apply (suffix_chars_over (int_suffixes ++ float_suffixes)); [reflexivity | exact HinAll] | destruct up; reflexivity].
         - destruct up; reflexivity. }
-      rewrite NP. replace (if clash then int_suffixes ++ float_suffixes else int_suffixes ++ float_suffixes) with (int_suffixes ++ float_suffixes) by (destruct clash; reflexivity).
+      rewrite NP.
       apply (strip_suffix_lit _ (int_alpha RDec up (seq 0 10))); [destruct up; reflexivity | reflexivity | left; destruct up; reflexivity | apply int_body_over, groups_ok_in, Hg | exact HinAll].
     - assert (P : is_prefixed (body ++ (if us then [c_us] else []) ++ chars s) = true) by reflexivity. rewrite P.
-      cbn [rs_int_guard] in Hq. cbn [rs_int_sfx_table] in Hin.
-      destruct clash.
-      + cbn [negb orb] in Hq. apply orb_true_iff in Hq. destruct Hq as [Hq|Hq].
-        * subst up. apply (strip_suffix_lit _ (int_alpha RHex true (seq 0 16))); [reflexivity | reflexivity | left; reflexivity | apply int_body_over, groups_ok_in, Hg | exact HinAll].
-        * apply (strip_suffix_lit _ (int_alpha RHex up hex_digits_no_f)); [destruct up; reflexivity | reflexivity | left; destruct up; reflexivity | apply int_body_over; exact Hq | exact HinAll].
-      + change (filter (fun s0 => negb (is_float_suffix s0)) (int_suffixes ++ float_suffixes)) with int_suffixes.
-        apply (strip_suffix_lit _ (int_alpha RHex up (seq 0 16))); [destruct up; reflexivity | reflexivity | left; destruct up; reflexivity | apply int_body_over, groups_ok_in, Hg | exact Hin].
+      cbn [rs_int_sfx_table] in Hin.
+      change (filter (fun s0 => negb (is_float_suffix s0)) (int_suffixes ++ float_suffixes)) with int_suffixes.
+      apply (strip_suffix_lit _ (int_alpha RHex up (seq 0 16))); [destruct up; reflexivity | reflexivity | left; destruct up; reflexivity | apply int_body_over, groups_ok_in, Hg | exact Hin].
     - assert (P : is_prefixed (body ++ (if us then [c_us] else []) ++ chars s) = true) by reflexivity. rewrite P.
       cbn [rs_int_sfx_table] in Hin.
-      destruct clash.
-      + apply (strip_suffix_lit _ (int_alpha ROct up (seq 0 8))); [destruct up; reflexivity | reflexivity | left; destruct up; reflexivity | apply int_body_over, groups_ok_in, Hg | exact HinAll].
-      + change (filter (fun s0 => negb (is_float_suffix s0)) (int_suffixes ++ float_suffixes)) with int_suffixes.
-        apply (strip_suffix_lit _ (int_alpha ROct up (seq 0 8))); [destruct up; reflexivity | reflexivity | left; destruct up; reflexivity | apply int_body_over, groups_ok_in, Hg | exact Hin].
+      change (filter (fun s0 => negb (is_float_suffix s0)) (int_suffixes ++ float_suffixes)) with int_suffixes.
+      apply (strip_suffix_lit _ (int_alpha ROct up (seq 0 8))); [destruct up; reflexivity | reflexivity | left; destruct up; reflexivity | apply int_body_over, groups_ok_in, Hg | exact Hin].
     - assert (P : is_prefixed (body ++ (if us then [c_us] else []) ++ chars s) = true) by reflexivity. rewrite P.
       cbn [rs_int_sfx_table] in Hin.
-      destruct clash.
-      + apply (strip_suffix_lit _ (int_alpha RBin up (seq 0 2))); [destruct up; reflexivity | reflexivity | left; destruct up; reflexivity | apply int_body_over, groups_ok_in, Hg | exact HinAll].
-      + change (filter (fun s0 => negb (is_float_suffix s0)) (int_suffixes ++ float_suffixes)) with int_suffixes.
-        apply (strip_suffix_lit _ (int_alpha RBin up (seq 0 2))); [destruct up; reflexivity | reflexivity | left; destruct up; reflexivity | apply int_body_over, groups_ok_in, Hg | exact Hin]. }
+      change (filter (fun s0 => negb (is_float_suffix s0)) (int_suffixes ++ float_suffixes)) with int_suffixes.
+      apply (strip_suffix_lit _ (int_alpha RBin up (seq 0 2))); [destruct up; reflexivity | reflexivity | left; destruct up; reflexivity | apply int_body_over, groups_ok_in, Hg | exact Hin]. }
   fold tail. rewrite STRIP, CLEAN, VAL. reflexivity.
 Qed.
 
 (* extract_total (Rust, floats) *)
-Lemma rs_extract_float clash ip fp ex sfx us s :
+Lemma rs_extract_float ip fp ex sfx us s :
   fdigits_ok ip = true -> nonempty ip = true -> fdigits_ok fp = true -> ex_ok ex = true ->
   sfx_split sfx float_suffixes = Some (us, s) ->
-  rs_extract clash "float_literal" (lit_chars (LFloat ip fp ex sfx))
+  rs_extract false "float_literal" (lit_chars (LFloat ip fp ex sfx))
   = Some (digits_val 10 0 (ip ++ fp), (- Z.of_nat (List.length fp) + exp_val ex)%Z).
 Proof.
   intros Hi Hn Hf He Hs. unfold lit_chars. cbn [lit_body lit_suffix].
@@ -579,7 +619,6 @@ Proof.
     - apply (over_mono float_alpha); [exact Hover | reflexivity].
     - apply (over_mono suffix_alpha); [apply (suffix_chars_over (int_suffixes ++ float_suffixes)); [reflexivity | exact HinAll] | reflexivity]. }
   unfold rs_suffix_table. rewrite NP, rs_suffixes_fact.
-  replace (if clash then int_suffixes ++ float_suffixes else int_suffixes ++ float_suffixes) with (int_suffixes ++ float_suffixes) by (destruct clash; reflexivity).
   rewrite (strip_suffix_lit (int_suffixes ++ float_suffixes) (c_us :: float_alpha) (float_body ip fp ex) us s);
     [ | reflexivity | reflexivity | left; reflexivity | apply (over_mono float_alpha); [exact Hover | reflexivity] | exact HinAll].
   rewrite remove_us_app. rewrite (remove_us_over float_alpha _ Hover) by reflexivity.
